@@ -8,7 +8,7 @@ from harness.drivers import c04
 chk = Check("C04X")
 base = {"op": "none", "kind": "cp", "shape": [], "rank": [], "family": "generic", "how": "function", "mode": 0, "operand": "none", "odim": 0,
         "keep": False, "copy": False, "npad": 0, "padb": False, "lens": [], "maxrank": 0, "thr": 0, "listin": False,
-        "fshapes": [], "coreshape": [], "pshapes": [], "rshapes": [], "mag": 0, "omix": "none", "steps": [], "grade": 0, "negmode": False, "cmix": "none", "cdtypes": [], "callform": "kw", "alias": False, "vals": "plain"}
+        "fshapes": [], "coreshape": [], "pshapes": [], "rshapes": [], "mag": 0, "omix": "none", "steps": [], "grade": 0, "negmode": False, "cmix": "none", "cdtypes": [], "callform": "kw", "alias": False, "vals": "plain", "copyopt": "default"}
 def cfg(**kw):
     c = dict(base); c.update(kw); return c
 evs = []
@@ -57,6 +57,9 @@ pm = run("good_padmix", cfg(op="pad_tt_rank", kind="tt", shape=[2, 3, 2], rank=[
 mut(pm, "padmix_cast", lambda e: e["out"].__setitem__("pdtypes", ["float32"] * 3))
 x2 = run("good_seq_failed_call", cfg(op="sequence", shape=[2, 3], rank=[2], mode=1, odim=2, steps=["N", "X", "N"], fshapes=[[2, 2], [3, 2]]))
 mut(x2, "seq_bad_call_accepted", lambda e: e["out"]["steps"][1].__setitem__("accepted", True))
+rf = run("good_refused", cfg(op="refused", shape=[2, 3, 2], rank=[2], how="object", mode=1, operand="vector", copyopt="default", fshapes=[[2, 2], [3, 2], [2, 2]]))
+mut(rf, "refused_lost_factor", lambda e: e["out"].__setitem__("nfac", 2))
+mut(rf, "refused_accepted", lambda e: e["out"].__setitem__("accepted", True))
 good = {e["id"] for e in evs if e["id"].startswith("good")}
 rej = chk.validate("TransformsTrace", evs)
 for r in sorted(rej): print(r[:2])
